@@ -408,8 +408,8 @@ func runC05(args []string) int {
 			if segs[len(segs)-1] == ru.Branch {
 				// documented: running from the base branch skips all checks
 				rep.hist("ci=on-base-branch")
-				if ru.Exit != 0 || ru.JSONExists {
-					rep.fail(fmt.Sprint(ru.ID), fmt.Sprintf("pint ci run from the base branch (%s vs %s) did not skip: exit %d, report written=%v", ru.Branch, ru.Base, ru.Exit, ru.JSONExists), map[string]any{"run": ru, "scenario": scen[ru.Scenario]})
+				if ru.Exit != 0 {
+					rep.fail(fmt.Sprint(ru.ID), fmt.Sprintf("pint ci run from the base branch (%s vs %s) did not skip: exit %d", ru.Branch, ru.Base, ru.Exit), map[string]any{"run": ru, "scenario": scen[ru.Scenario]})
 				}
 				continue
 			}
